@@ -206,9 +206,9 @@ func (r *CheckRun) Run() (code int) {
 		return 2
 	}
 	P.computeModsets()
-	quickMs, slowMs := 3000, 10000
+	quickMs, slowMs := 4000, 30000
 	if r.Tier == "thorough" {
-		quickMs, slowMs = 10000, 60000
+		quickMs, slowMs = 10000, 120000
 	}
 	type fres struct {
 		vc   *VC
@@ -216,36 +216,43 @@ func (r *CheckRun) Run() (code int) {
 		err  error
 	}
 	results := make([]fres, len(keys))
-	// VC generation is sequential (shared registries), solving is parallel
-	for i, k := range keys {
-		vc := NewVCFor(P, P.Spec.Contracts[k], r.Prop)
-		if c := vc.contract; c != nil {
-			vc.safetyProp = false
-			for _, sp := range c.SafetyProps {
-				if sp == r.Prop {
-					vc.safetyProp = true
-				}
-			}
-		}
-		err := vc.Generate()
-		if err == nil {
-			vc.finish()
-		}
-		results[i] = fres{vc: vc, obls: vc.obls, err: err}
-	}
+	// generation and solving of the units run concurrently (registries are mutex-guarded)
 	var wg sync.WaitGroup
 	sem := make(chan struct{}, runtime.NumCPU())
-	for i := range results {
-		if results[i].err != nil {
-			continue
-		}
+	for i, k := range keys {
 		wg.Add(1)
-		go func(i int) {
+		go func(i int, k string) {
 			defer wg.Done()
 			sem <- struct{}{}
 			defer func() { <-sem }()
-			results[i].err = results[i].vc.Discharge(results[i].obls, r.Work, quickMs, slowMs)
-		}(i)
+			vc := NewVCFor(P, P.Spec.Contracts[k], r.Prop)
+			vc.workDir = r.Work
+			if c := vc.contract; c != nil {
+				vc.safetyProp = false
+				for _, sp := range c.SafetyProps {
+					if sp == r.Prop {
+						vc.safetyProp = true
+					}
+				}
+			}
+			err := func() (err error) {
+				defer func() {
+					if rec := recover(); rec != nil {
+						if ee, ok := rec.(evalErr); ok {
+							err = fmt.Errorf("%s: %s", k, string(ee))
+							return
+						}
+						panic(rec)
+					}
+				}()
+				return vc.Generate()
+			}()
+			if err == nil {
+				vc.finish()
+				err = vc.Discharge(vc.obls, r.Work, quickMs, slowMs)
+			}
+			results[i] = fres{vc: vc, obls: vc.obls, err: err}
+		}(i, k)
 	}
 	wg.Wait()
 	engineErr := false
